@@ -36,11 +36,18 @@ type gCfg struct {
 	sched                               bool // goroutines also park at the entry of every loop submission
 	netRev                              bool // the host gatherer walks its networks in reverse order (tcp before udp)
 	relayCloseErr                       bool // closing a relayed connection reports an error
+	// mappedExt: external addresses of the server-reflexive rewrite rule: 0 one address; 1 two addresses; 2 / 3 two
+	// addresses of which the first / second is an IPv6 link-local one, which is never published
+	mappedExt int
+	// relayExt: a rewrite rule for relay candidates: 0 none; 1 one address appended (one allocation, two
+	// candidates); 2 two addresses replacing the relayed one
+	relayExt int
 }
 
 func (g gCfg) String() string {
 	return fmt.Sprintf("host=%v srflx=%v mapped=%v relay=%v udpMux=%v muxSrflx=%v tcpMux=%v relayTCP=%v ips=%d filter=%v stunTO=%v urls2=%v",
-		g.host, g.srflxStun, g.srflxMapped, g.relay, g.udpMux, g.udpMuxSrflx, g.tcpMux, g.relayTCP, g.nIPs, g.ifaceFilter, g.stunTimeout, g.twoStunURLs) + map[bool]string{true: " sched", false: ""}[g.sched] + map[bool]string{true: " netrev", false: ""}[g.netRev] + map[bool]string{true: " relayCloseErr", false: ""}[g.relayCloseErr]
+		g.host, g.srflxStun, g.srflxMapped, g.relay, g.udpMux, g.udpMuxSrflx, g.tcpMux, g.relayTCP, g.nIPs, g.ifaceFilter, g.stunTimeout, g.twoStunURLs) + map[bool]string{true: " sched", false: ""}[g.sched] + map[bool]string{true: " netrev", false: ""}[g.netRev] + map[bool]string{true: " relayCloseErr", false: ""}[g.relayCloseErr] +
+		fmt.Sprintf(" mappedExt=%d relayExt=%d", g.mappedExt, g.relayExt)
 }
 
 func drawGCfg(t *tape.Tape) gCfg {
@@ -64,6 +71,12 @@ func drawGCfg(t *tape.Tape) gCfg {
 	g.sched = t.Bias(1, 3, "sched")
 	g.netRev = g.tcpMux && t.Bias(1, 2, "netrev")
 	g.relayCloseErr = g.relay && t.Bias(1, 3, "relaycloseerr")
+	if g.srflxMapped {
+		g.mappedExt = t.Pick([]int{3, 1, 1, 1}, "mappedext")
+	}
+	if g.relay {
+		g.relayExt = t.Pick([]int{3, 1, 1}, "relayext")
+	}
 	return g
 }
 
@@ -151,9 +164,28 @@ func newGRig(c *core.Ctx, t *tape.Tape, cfg gCfg, extra ...ice.AgentOption) (*gR
 	if len(urls) > 0 {
 		opts = append(opts, ice.WithUrls(urls))
 	}
+	var rules []ice.AddressRewriteRule
 	if cfg.srflxMapped {
 		g.H.Alias = netip.MustParseAddr("198.51.100.1")
-		opts = append(opts, ice.WithAddressRewriteRules(ice.AddressRewriteRule{External: []string{"198.51.100.1"}, AsCandidateType: ice.CandidateTypeServerReflexive}))
+		rule := ice.AddressRewriteRule{External: []string{"198.51.100.1"}, AsCandidateType: ice.CandidateTypeServerReflexive}
+		switch cfg.mappedExt {
+		case 1:
+			rule.External = []string{"198.51.100.1", "198.51.100.2"}
+		case 2:
+			rule.External, rule.Local = []string{"fe80::1234", "198.51.100.1"}, "0.0.0.0"
+		case 3:
+			rule.External, rule.Local = []string{"198.51.100.1", "fe80::1234"}, "0.0.0.0"
+		}
+		rules = append(rules, rule)
+	}
+	switch cfg.relayExt {
+	case 1:
+		rules = append(rules, ice.AddressRewriteRule{External: []string{"203.0.113.77"}, AsCandidateType: ice.CandidateTypeRelay, Mode: ice.AddressRewriteAppend})
+	case 2:
+		rules = append(rules, ice.AddressRewriteRule{External: []string{"203.0.113.77", "203.0.113.78"}, AsCandidateType: ice.CandidateTypeRelay, Mode: ice.AddressRewriteReplace})
+	}
+	if len(rules) > 0 {
+		opts = append(opts, ice.WithAddressRewriteRules(rules...))
 	}
 	if cfg.ifaceFilter {
 		opts = append(opts, ice.WithInterfaceFilter(func(name string) bool { return name == "eth0" || name == "eth1" }))
